@@ -35,7 +35,7 @@ def us(dt):
 
 
 def when_us(when_s):
-    return us(T0) + int(when_s) * 1000000
+    return us(T0) + int(round(float(when_s) * 1000000))
 
 
 def D(x):
@@ -143,6 +143,7 @@ def build_exchange(case, dispatcher):
     e = bx.Exchange(dispatcher, {s: D(v) for s, v in case["initial"].items()},
                     liquidity_strategy_factory=liq_factory, fee_strategy=fee, default_pair_info=dp,
                     lending_strategy=lend)
+    e._verif_lend = lend
     for s, p in case["sym_prec"].items():
         e.set_symbol_precision(s, int(p))
     pairs = [Pair(b, q) for b, q in case["pairs"]]
@@ -262,6 +263,7 @@ async def _run_case(case, max_concurrent=1):
         return v
 
     case["_order_pairs"] = []      # creation index -> pair idx (filled as orders get accepted)
+    lend_now = [case["lend"]]
     last_loan_obs = {}
 
     async def record(op, reply, extra=None):
@@ -273,6 +275,7 @@ async def _run_case(case, max_concurrent=1):
 
     seen_primary = set()
     bar_index_by_id = {}
+    on_fill_count = [0]
 
     async def post_sniffer(event):
         if isinstance(event, core_bar.BarEvent) and id(event) in bar_index_by_id and id(event) not in seen_primary:
@@ -287,10 +290,32 @@ async def _run_case(case, max_concurrent=1):
         await refresh_ids()
         info = ev.order
         tr.events.append((us(ev.when), order_ids.index(info.id) if info.id in order_ids else -1, info))
+        acts = case.get("on_fill") or []
+        if acts and info.amount_filled > 0 and on_fill_count[0] < len(acts):
+            # a strategy reacting to its own fills (re-investing the proceeds, hedging on another pair)
+            a = acts[on_fill_count[0]]
+            on_fill_count[0] += 1
+            await do_action(a)
 
     async def do_action(a):
         from basana.core.enums import OrderOperation
         kind = a[0]
+        if kind == "spend":
+            # a strategy that sizes its order from what get_balances() reports right now: a fraction of the available
+            # quote currency at the given limit price.  What is recorded (and replayed by the model) is the request made.
+            _, pi, num, den, limit = a
+            try:
+                bals = await e.get_balances()
+                quote = pairs[pi].quote_symbol
+                avail = bals[quote].available if quote in bals else Decimal(0)
+                pinfo = await e.get_pair_info(pairs[pi])
+                amount = (avail * Decimal(int(num)) / Decimal(int(den)) / D(limit)).quantize(
+                    Decimal(1).scaleb(-pinfo.base_precision), rounding=decimal.ROUND_DOWN)
+            except Exception as ex:       # noqa
+                tr.crash = "get_balances / get_pair_info raised: %r" % (ex,)
+                return
+            a = ["create", "limit", "buy", pi, format(amount, "f"), limit, None, False, False]
+            kind = "create"
         try:
             if kind == "create":
                 _, k, op, pi, amount, limit, stop, ab, ar = a
@@ -323,6 +348,19 @@ async def _run_case(case, max_concurrent=1):
                 lid = loan_ids[ref] if ref < len(loan_ids) else "no-such-loan-%d" % ref
                 await e.repay_loan(lid)
                 reply = [F(0)]
+            elif kind == "recond":
+                # the margin requirement of a symbol changed by assigning to its (mutable) conditions object
+                cond = e._verif_lend.get_conditions(a[1])
+                cond.margin_requirement = D(a[2])
+                import copy as _copy
+                lc = _copy.deepcopy(lend_now[0])
+                if a[1] in lc["conds"]:
+                    lc["conds"][a[1]][4] = a[2]
+                else:
+                    lc["default"][4] = a[2]
+                lend_now[0] = lc
+                await record(a, [F(0)], {"lend_after": lc})
+                return
             elif kind == "reconfig":
                 # precision changed while the backtest runs (public setters of the exchange)
                 from basana.core.pair import PairInfo
@@ -375,13 +413,13 @@ async def _run_case(case, max_concurrent=1):
             return
         await record(a, reply)
 
-    bar_times = sorted({int(b[1]) for b in case["bars"]})
+    bar_times = sorted({b[1] for b in case["bars"]})
 
     def make_handler(pi):
         async def on_bar(ev):
             i = bar_index_by_id.get(id(ev))
             acts = case["script"].get(str(i), [])
-            later = [t for t in bar_times if i is not None and t > int(case["bars"][i][1])]
+            later = [t for t in bar_times if i is not None and t > case["bars"][i][1]]
             if acts and later and case_variant(case) & 16 and i % 3 == 1:
                 # "rebalance when the next bar closes": the actions are left to a job scheduled at the time of the next
                 # bar event, which the dispatcher runs before it dispatches the events of that time
@@ -405,8 +443,8 @@ async def _run_case(case, max_concurrent=1):
             # bar durations: one minute, or (in half of the cases) a feed mixing time frames, where a coarse bar that
             # began long ago is delivered after finer ones that began later - delivery time is what orders events
             dur = 3600 if (case_variant(case) & 1 and i % 3 == 2) else 60
-            begin = T0 + datetime.timedelta(seconds=int(b[1]) - dur)
-            when = T0 + datetime.timedelta(seconds=int(b[1]))
+            begin = T0 + datetime.timedelta(seconds=float(b[1]) - dur)
+            when = T0 + datetime.timedelta(seconds=float(b[1]))
             bar = core_bar.Bar(begin, pair, D(b[2]), D(b[3]), D(b[4]), D(b[5]), D(b[6]))
             ev = core_bar.BarEvent(when, bar)
             bar_index_by_id[id(ev)] = i
@@ -423,6 +461,9 @@ async def _run_case(case, max_concurrent=1):
             e.subscribe_to_bar_events(pair, passive_subscriber)
         e.subscribe_to_bar_events(pair, make_handler(pi))
 
+    if case.get("order_events_first", False):
+        # the strategy subscribes to its order events before anything else: that source comes first in every pass
+        e.subscribe_to_order_events(on_order_event)
     if case.get("subscribe_first", False):
         for pi, pair in enumerate(pairs):
             subscribe_pair(pi, pair)
@@ -445,7 +486,8 @@ async def _run_case(case, max_concurrent=1):
         async def journal(ev):
             tr.events2.append((us(ev.when), ev.order.id, ev.order.is_open, ev.order.amount_filled))
         e.subscribe_to_order_events(journal)
-    e.subscribe_to_order_events(on_order_event)
+    if not case.get("order_events_first", False):
+        e.subscribe_to_order_events(on_order_event)
     d.subscribe_all(post_sniffer, front_run=False)
     try:
         await d.run(stop_signals=[])
@@ -476,7 +518,7 @@ def run_case(case, prec=28, max_concurrent=1, rounding=None):
     if rounding is not None:
         ctx.rounding = rounding
     lg = logging.getLogger("basana")
-    if case_variant(case) & 4:
+    if case_variant(case) & 4 or case.get("debug_log"):
         # a quarter of the cases run with the library's logging fully on (DEBUG), into a sink that formats every record
         lg.setLevel(logging.DEBUG)
         lg.propagate = False
@@ -499,6 +541,8 @@ def run_case(case, prec=28, max_concurrent=1, rounding=None):
         ctx.rounding = old_rounding
         core_helpers.round_decimal = orig_round
     tr.case = case
+    if tr.crash:
+        raise RuntimeError(tr.crash)
     return tr
 
 
@@ -545,14 +589,16 @@ def g_cfg(case):
     dp = "None" if case["default_pair"] is None else f"(Some ({int(case['default_pair'][0])}%nat, {int(case['default_pair'][1])}%nat))"
     fee = "NoFee" if case["fee"] is None else f"(PctFee {qlit(F(D(case['fee'][0])))} {qlit(F(D(case['fee'][1])))})"
     liq = "InfLiq" if case["liq"] is None else f"(VolShare {qlit(F(D(case['liq'][0])))} {qlit(F(D(case['liq'][1])))})"
-    if case["lend"] is None:
-        lend = "NoLoans"
-    else:
-        lc = case["lend"]
-        dflt = "None" if lc["default"] is None else f"(Some {g_cond(case, lc['default'])})"
-        conds = listlit([f"({g_sym(case, s)}, {g_cond(case, c)})" for s, c in lc["conds"].items()])
-        lend = f"(Margin {g_sym(case, lc['quote'])} {dflt} {conds})"
+    lend = g_lend(case, case["lend"])
     return f"(mkCfg {sp} {pi} {dp} {fee} {liq} {lend})"
+
+
+def g_lend(case, lc):
+    if lc is None:
+        return "NoLoans"
+    dflt = "None" if lc["default"] is None else f"(Some {g_cond(case, lc['default'])})"
+    conds = listlit([f"({g_sym(case, s)}, {g_cond(case, c)})" for s, c in lc["conds"].items()])
+    return f"(Margin {g_sym(case, lc['quote'])} {dflt} {conds})"
 
 
 def g_op(case, step):
@@ -582,13 +628,15 @@ def g_op(case, step):
 
 def has_reconfig(tr):
     """does the history need the extended layer of the model (precision setters, clock ticks of scheduled jobs)?"""
-    return any(s["op"][0] in ("reconfig", "tick") for s in tr.steps)
+    return any(s["op"][0] in ("reconfig", "tick", "recond") for s in tr.steps)
 
 
 def g_xop(case, step):
     op = step["op"]
     if op[0] == "tick":
         return f"(XTick {zlit(when_us(op[1]))}%Z)"
+    if op[0] == "recond":
+        return f"(XLend {g_lend(case, step['lend_after'])})"
     if op[0] == "reconfig":
         if op[1] == "sym":
             return f"(XSymPrec {g_sym(case, op[2])} {int(op[3])}%nat)"
